@@ -1,3 +1,4 @@
+import Ebu.Props.C03
 import Ebu.Spec.Conc
 import Ebu.Proofs.Conc
 /-!
@@ -25,5 +26,11 @@ theorem turns_in_ticket_order (progs : List (List Op)) (s : Sys) (h : Reachable 
     ticketsOf rid s.sh.turns = List.range (ticketsOf rid s.sh.turns).length ∧
     (ticketsOf rid s.sh.turns).length ≤ (ticketsOf rid s.sh.issued).length :=
   Ebu.Conc.turns_in_ticket_order progs s h rid
+
+/-- the ticket counter, the serving counter and the in-flight counter are only touched under their mutexes in the
+CURRENT source (fact table regenerated on every run): tickets are handed out without lost updates, which is what the
+atomic `ticket` step of M2 assumes -/
+theorem ticket_counters_locked : Ebu.Locks.Discipline Ebu.Generated.accessFacts = true :=
+  Ebu.Props.C03.facts_discipline
 
 end Ebu.Props.C07
